@@ -92,9 +92,12 @@ pub fn run(stim: &Value, rec: &Rec) {
         let log_s = log.clone();
         let srv_timeout = stim["timeout_ms"].as_u64();
         let with_layer = stim["layer"].as_bool().unwrap_or(false);
+        let conc_limit = stim["limit"].as_u64().filter(|n| *n > 0);
         let svc = SvcServer::new(h.clone());
         let serve = tokio::spawn(async move {
             let mut b = tonic::transport::Server::builder().max_connection_age(Duration::from_millis(AGE_MS));
+            // stim.limit: a per-connection concurrency limit; a request waiting for a permit when the signal fires has been accepted like any other
+            if let Some(n) = conc_limit { b = b.concurrency_limit_per_connection(n as usize); }
             if let Some(ms) = srv_timeout { b = b.timeout(Duration::from_millis(ms)); }      // Server::timeout: bounds the handler future, not the response stream
             let sig = async move { if sig_rx.await.is_err() { std::future::pending::<()>().await } };
             // stim.layer: a do-nothing tower layer added after the builder options (Server::layer rebuilds the builder: nothing may be lost)
